@@ -10,6 +10,11 @@ CLAIMED = {
             'over R. Tie to code: translator re-run each time + the translated chains executed at Float against unit.py bit for bit.',
             'regenerated Lean model + theorems (cases/norm_num over R), bit-exact differential run of the translated chains',
             '5 C06'),
+    'C17': ('Theorems over the hand model of calc_powder_sens/get_velocity_for_temp: disabled => identity; enabled => the affine law '
+            'anchored at the stated point; calibration reproduces the second measurement with no ordering hypothesis. Tie: bit-exact '
+            'correspondence of the Float interpretation with munition.py on random ammo incl. all four orderings.',
+            'hand Lean model + theorems (field_simp/ring over R), bit-exact differential run, property-level search',
+            '5 C17'),
 }
 NOT_APPLICABLE = {}
 TODO_REASON = 'check not built yet in this round (planned, see DESIGN.md section 5)'
